@@ -28,6 +28,11 @@ class Faulty:
         self.cb, self.where, self.called = None, None, 0
         self.effects, self.applied = [], 0  # writes the callback made on its own account: (kind, name, ...)
 
+    def __deepcopy__(self, memo):
+        # (an operand the library chose to store as an element is copied with it: the copy is a plain data source, with no
+        # way back to the harness's objects)
+        return type(self)(list(self.items), self.mode, self.at)
+
     def _callback(self):
         """Re-entrant use: while the library is reading this operand, the operand reads from the very object that is being
         assigned to (as a data source backed by the same container would). Read-only: the assignment under way is all
